@@ -7,7 +7,7 @@
 (* output is printed as a VIOL line; a line that no action explains stops  *)
 (* the behaviour (detected by the post-condition on the diameter).         *)
 (***************************************************************************)
-EXTENDS ReaderAbs, Json, IOUtils
+EXTENDS ReaderAbs, Json, IOUtils, SequencesExt
 
 Rec == ndJsonDeserialize(IOEnv.TRACE)
 
@@ -15,7 +15,7 @@ VARIABLES l, rel, run
 
 tvars == <<absVars, l, rel, run>>
 
-ToSet(s) == {s[i] : i \in DOMAIN s}
+\* (ToSet comes with SequencesExt)
 AckRec(a) == [base |-> a.base, set |-> ToSet(a.set), count |-> a.count]
 NfRec(f) == [sn |-> f.sn, set |-> ToSet(f.set), count |-> f.count]
 Acks(e) == [i \in DOMAIN e.acks |-> AckRec(e.acks[i])]
@@ -24,6 +24,9 @@ Got(e) == [i \in DOMAIN e.got |-> [w |-> e.got[i].w, sn |-> e.got[i].sn, pid |->
                                    ts |-> e.got[i].ts, checkOrder |-> rel,
                                    checkHoles |-> rel /\ e.holes]]
 
+
+InstOrderViol(g) ==
+  IF \E i, j \in DOMAIN g : i < j /\ g[i].w = g[j].w /\ g[i].k = g[j].k /\ g[i].sn >= g[j].sn THEN {"C01_order"} ELSE {}
 
 \* C06: a hostile datagram was injected; measurements taken by the harness around the call
 C06Viol(e) ==
@@ -66,7 +69,12 @@ Step ==
        [] e.ev = "Heartbeat" -> AbsHeartbeat(e.w, e.first, e.last, e.count, rel, Acks(e), Nfs(e)) /\ UNCHANGED <<rel, run>>
        [] e.ev = "Gap"       -> AbsGap(e.w, e.start, e.base, ToSet(e.set)) /\ UNCHANGED <<rel, run>>
        [] e.ev = "Spont"     -> AbsSpontaneous(e.w, Acks(e), Nfs(e)) /\ UNCHANGED <<rel, run>>
-       [] e.ev = "Take"      -> ObsHand(Got(e)) /\ UNCHANGED <<rel, run>>
+       \* by instance: the application took instance after instance; within an instance the samples of a writer must come in
+       \* sequence-number order, and the union (everything that was available) is judged like the result of one take
+       [] e.ev = "Take"      -> /\ IF e.byinst
+                                     THEN ObsHandWith(SortSeq(Got(e), LAMBDA a, b : a.sn < b.sn), InstOrderViol(e.got))
+                                     ELSE ObsHand(Got(e))
+                                /\ UNCHANGED <<rel, run>>
        \* non-interference: a hostile datagram changes nothing in the abstract state of the well-behaved peers
        [] e.ev = "Hostile"   -> viol' = viol \cup C06Viol(e) /\ UNCHANGED <<rel, run, matched, recv, unavMay, unavMust, everUnav, deliv, frags, hbCnt, hbRange, handed, hlow, low, ackBase, ackCnt, nfCnt>>
        [] e.ev \in {"HostileBegin", "RunDone", "TakeErr"} -> UNCHANGED <<absVars, rel, run>>
